@@ -97,6 +97,21 @@ func (c *Ctx) fieldAccesses() []fieldAccess {
 		return a
 	}
 	var out []fieldAccess
+	la := c.lexAliasTable()
+	canon := func(name, fld string) (string, string) {
+		if la == nil {
+			return name, fld
+		}
+		if la.holders[name] {
+			name = "lexer"
+		}
+		if name == "lexer" {
+			if to, ok := la.field["<lexer>."+fld]; ok {
+				fld = strings.TrimPrefix(to, "<lexer>.")
+			}
+		}
+		return name, fld
+	}
 	for _, fn := range c.allFuncs() {
 		for _, b := range fn.Blocks {
 			for _, ins := range b.Instrs {
@@ -107,6 +122,7 @@ func (c *Ctx) fieldAccesses() []fieldAccess {
 						continue
 					}
 					fld := st.Field(ins.Field).Name()
+					name, fld = canon(name, fld)
 					for _, k := range classifyAddrUses(ins) {
 						out = append(out, fieldAccess{name, fld, fn, k, ins.Pos()})
 					}
@@ -116,6 +132,7 @@ func (c *Ctx) fieldAccesses() []fieldAccess {
 						continue
 					}
 					fld := st.Field(ins.Field).Name()
+					name, fld = canon(name, fld)
 					kinds := []string{"read"}
 					if elemWritten(ins) {
 						kinds = append(kinds, "elemwrite")
